@@ -361,14 +361,17 @@ func run(f *fixtures, sc kit.Scenario, out *kit.Out) error {
 			ctx, cancel := context.WithTimeout(context.Background(), 5*time.Second)
 			if path == "handle" {
 				if err := w.WriteMsg(&verifhs.Syn{ObservedUnderlay: nodeMAb}); err != nil {
+					cancel()
 					return err
 				}
 				if err := w.WriteMsg(ack); err != nil {
+					cancel()
 					return err
 				}
 				ev["panicked"], ev["pmsg"] = kit.Guard(func() { info, e = node.svc.Handle(ctx, local, pinfo.Addrs[0], pinfo.ID) })
 			} else {
 				if err := w.WriteMsg(&verifhs.SynAck{Syn: &verifhs.Syn{ObservedUnderlay: nodeMAb}, Ack: ack}); err != nil {
+					cancel()
 					return err
 				}
 				ev["panicked"], ev["pmsg"] = kit.Guard(func() { info, e = node.svc.Handshake(ctx, local, pinfo.Addrs[0], pinfo.ID) })
